@@ -159,12 +159,24 @@ Proof.
   lia.
 Qed.
 
+Lemma window_end_bounds sends a w : a <= window_end sends a w /\ window_end sends a w <= a + w.
+Proof.
+  unfold window_end.
+  assert (G : forall l m, a <= m -> m <= a + w ->
+     a <= fold_left (fun m s => if (a <=? fst s) && (fst s <=? a + w) then N.max m (fst s) else m) l m /\
+     fold_left (fun m s => if (a <=? fst s) && (fst s <=? a + w) then N.max m (fst s) else m) l m <= a + w).
+  { induction l as [|x l IH]; intros m H1 H2; simpl; [split; assumption|].
+    destruct ((a <=? fst x) && (fst x <=? a + w)) eqn:R; apply IH; lia. }
+  apply G; lia.
+Qed.
+
 Lemma complete_b_sound p tr k a :
   complete_b p (filter is_ctl tr) (sends_of k tr) k a = true ->
-  complete_adv p tr k a (a + p_W p).
+  complete_adv p tr k a (window_end (sends_of k tr) a (p_W p)).
 Proof.
   unfold complete_b. intro H. apply andb_true_iff in H as [Hs Hc].
-  unfold complete_adv. split; [lia|]. split; [lia|]. split.
+  destruct (window_end_bounds (sends_of k tr) a (p_W p)) as [B1 B2].
+  unfold complete_adv. split; [exact B1|]. split; [exact B2|]. split.
   - intros t l Hin [H1 H2]. unfold no_swarm_change in Hs. rewrite forallb_forall in Hs.
     assert (Hc' : In (ESwarm t l) (filter is_ctl tr)) by (apply filter_In; split; [exact Hin|reflexivity]).
     specialize (Hs _ Hc'). simpl in Hs. lia.
@@ -174,10 +186,11 @@ Proof.
     exists t, qs. split; [apply sends_of_In; exact Hin|]. auto.
 Qed.
 
-Lemma ads_of_complete p tr k a :
-  In a (ads_of p (filter is_ctl tr) (sends_of k tr) k) -> complete_adv p tr k a (a + p_W p).
+Lemma ads_of_complete p tr k ab :
+  In ab (ads_of p (filter is_ctl tr) (sends_of k tr) k) -> complete_adv p tr k (fst ab) (snd ab).
 Proof.
-  unfold ads_of. intro H. apply filter_In in H as [_ H]. apply complete_b_sound. exact H.
+  unfold ads_of. intro H. apply in_map_iff in H as [a [<- H]]. simpl.
+  apply filter_In in H as [_ H]. apply complete_b_sound. exact H.
 Qed.
 
 Lemma restarts_of_In ctl rho : In rho (restarts_of ctl) -> In (ERestart rho) ctl.
@@ -191,11 +204,11 @@ Lemma freshb_sound p tr k t :
   fresh p tr k t.
 Proof.
   unfold freshb. intro H. apply orb_true_iff in H as [H|H].
-  - apply existsb_exists in H as [a [Ha Hr]].
-    left. exists a, (a + p_W p). split; [apply ads_of_complete; exact Ha|]. lia.
+  - apply existsb_exists in H as [ab [Ha Hr]].
+    left. exists (fst ab), (snd ab). split; [apply ads_of_complete; exact Ha|]. lia.
   - apply existsb_exists in H as [rho [Hrho Hr]].
-    apply andb_true_iff in Hr as [Hr Hx]. apply existsb_exists in Hx as [a [Ha Hx]].
-    right. exists rho, a, (a + p_W p).
+    apply andb_true_iff in Hr as [Hr Hx]. apply existsb_exists in Hx as [ab [Ha Hx]].
+    right. exists rho, (fst ab), (snd ab).
     apply restarts_of_In in Hrho. apply filter_In in Hrho as [Hrho _].
     split; [exact Hrho|]. split; [lia|]. split; [lia|].
     split; [apply ads_of_complete; exact Ha|]. lia.
@@ -221,13 +234,13 @@ Qed.
 
 Lemma freshb_step p ads rs t :
   freshb p ads rs t = true -> freshb p ads rs (t + 1) = false ->
-  exists a, In a (ads ++ rs) /\ t + 1 = a + p_D p + 1.
+  exists a, In a (map fst ads ++ rs) /\ t + 1 = a + p_D p + 1.
 Proof.
   unfold freshb. intros H1 H2. apply orb_false_iff in H2 as [H2 H3].
   apply orb_true_iff in H1 as [H1|H1].
-  - apply existsb_exists in H1 as [a [Ha Hr]].
-    pose proof (existsb_false_all _ _ H2 a Ha) as F. simpl in F.
-    exists a. split; [apply in_or_app; left; exact Ha|lia].
+  - apply existsb_exists in H1 as [ab [Ha Hr]].
+    pose proof (existsb_false_all _ _ H2 ab Ha) as F. simpl in F.
+    exists (fst ab). split; [apply in_or_app; left; apply in_map; exact Ha|lia].
   - apply existsb_exists in H1 as [rho [Hrho Hr]].
     pose proof (existsb_false_all _ _ H3 rho Hrho) as F. simpl in F.
     apply andb_true_iff in Hr as [Hr Hx]. rewrite Hx in F. rewrite andb_true_r in F.
@@ -426,7 +439,7 @@ Proof.
       rewrite Hyp in H1. simpl in H1.
       apply existsb_exists in H1 as [a [_ Ha]].
       apply andb_true_iff in Ha as [Ha Hc]. apply complete_b_sound in Hc.
-      exists a, (a + p_W p). split; [exact Hc|]. lia.
+      exists a, (window_end (sends_of k (pre0 ++ EOnce t ks :: post)) a (p_W p)). split; [exact Hc|]. lia.
     + eapply (IH (pre0 ++ [e'])); try eassumption.
       * rewrite <- app_assoc. reflexivity.
       * reflexivity.
